@@ -269,6 +269,12 @@ class SInt:
 
 # helpers usable with symbolic *and* concrete operands -------------------------------
 
+
+
+# the symbolic integer stands for a real number wherever code asks (isinstance(x, numbers.Real)) - as an int does
+import numbers as _numbers  # noqa: E402
+_numbers.Real.register(SInt)
+
 def _b(v):
     if isinstance(v, SBool):
         return v.z
